@@ -96,6 +96,11 @@ class Obligation:
         """identity used for de-duplication and for known findings (no line numbers)"""
         return (self.prop, self.rule, self.entry, " ".join(str(self.construct).split()))
 
+    @property
+    def skey(self):
+        """key with local names abstracted (stable under renaming of locals)"""
+        return (self.prop, self.rule, self.entry, structural_key(self.construct))
+
     def to_json(self):
         return {"rule": self.rule, "instance": self.instance, "status": self.status, "where": self.where,
                 "construct": self.construct, "entry": self.entry, "config": self.config, "msg": self.msg,
@@ -144,6 +149,15 @@ class Report:
 
     def require(self, rule, n):
         self.minimums[rule] = max(n, self.minimums.get(rule, 0))
+
+    def problems(self):
+        """frozen minimums that are not met (lost anchors)"""
+        decided = {}
+        for o in self.obls:
+            if o.status != UNDECIDED:
+                decided[o.rule] = decided.get(o.rule, 0) + 1
+        return [f"rule {rule}: {decided.get(rule, 0)} decided obligations < frozen minimum {n}"
+                for rule, n in self.minimums.items() if decided.get(rule, 0) < n]
 
 
 # ------------------------------------------------------------------ known findings
